@@ -472,3 +472,137 @@ VARIANTS.append(A("X53-header-stack-bound-at-class-level", "fire", ["C18", "C19"
 VARIANTS.append(E("X54-history-lists-as-mutable-defaults", "fire", ["C13"], "history",
                   "    def __init__(self):\n        \"\"\"\n        Sets up members\n        \"\"\"\n        self.requests = []\n        self.responses = []\n",
                   "    def __init__(self, requests=[], responses=[]):\n        \"\"\"\n        Sets up members\n        \"\"\"\n        self.requests = requests\n        self.responses = responses\n"))
+
+
+# ---- closed-world rules (rules/closed_world.py): additions that change what existing code does, and their harmless twins ----
+_MC_OLD = '''        request_body = "[ {0} ]".format(
+            ",".join(job.request() for job in self._job_list)
+        )
+'''
+VARIANTS.append(E("X60-lazy-map-consumed-by-a-trace-loop-and-by-the-join", "fire", ["C01", "C06"], "jsonrpc", _MC_OLD,
+                  '''        requests = map(MultiCallMethod.request, self._job_list)
+        if _logger.isEnabledFor(logging.DEBUG):
+            for request in requests:
+                _logger.debug("... batch entry: %s", request)
+        request_body = "[ {0} ]".format(",".join(requests))
+'''))
+VARIANTS.append(E("S60-list-consumed-by-a-trace-loop-and-by-the-join", "silent", ALL_PROPS, "jsonrpc", _MC_OLD,
+                  '''        requests = [job.request() for job in self._job_list]
+        if _logger.isEnabledFor(logging.DEBUG):
+            for request in requests:
+                _logger.debug("... batch entry: %s", request)
+        request_body = "[ {0} ]".format(",".join(requests))
+'''))
+VARIANTS.append(E("S61-generator-bound-to-a-local-consumed-once", "silent", ALL_PROPS, "jsonrpc", _MC_OLD,
+                  '''        requests = (job.request() for job in self._job_list)
+        request_body = "[ {0} ]".format(",".join(requests))
+'''))
+_CFE_OLD = '''    if not result:
+        # Notification
+'''
+VARIANTS.append(E("S62-lazy-debug-trace-in-check_for_errors", "silent", ALL_PROPS, "jsonrpc", _CFE_OLD,
+                  '''    if _logger.isEnabledFor(logging.DEBUG):
+        _logger.debug("Checking the reply %r", result)
+    if not result:
+        # Notification
+'''))
+VARIANTS.append(E("X62-eager-integer-format-of-the-reply-in-check_for_errors", "fire", ["C06", "C05"], "jsonrpc", _CFE_OLD,
+                  '''    if _logger.isEnabledFor(logging.DEBUG):
+        _logger.debug("Checking the reply {0:d}".format(result))
+    if not result:
+        # Notification
+'''))
+_NOTIFY_OLD = '''                self._logger.exception("Error calling back method: %s", ex)
+'''
+VARIANTS.append(E("S63-callback-failure-logged-with-its-type-name", "silent", ALL_PROPS, "threadpool", _NOTIFY_OLD,
+                  '''                self._logger.exception("Error calling back method (%s): %s", type(ex).__name__, ex)
+'''))
+VARIANTS.append(E("X63-callback-failure-formatted-eagerly", "fire", ["C16"], "threadpool", _NOTIFY_OLD,
+                  '''                self._logger.exception("Error calling back method: {0}".format(ex))
+'''))
+_FIELDS_OLD = '''                attrs[attr_name] = dump(
+                    attr_value,
+                    serialize_method,
+                    ignore_attribute,
+                    ignore,
+                    config,
+                )
+'''
+def _log_skipped_member(eager):
+    def tr(tree):
+        f = _find_func(tree, None, "dump")
+        done = [False]
+        for n in ast.walk(f):
+            if isinstance(n, ast.If) and "isinstance(attr_value, known_types)" in ast.unparse(n.test) and not n.orelse:
+                msg = '"member %s not dumped (value: %r)"'
+                call = ("_skip_logger.debug(%s %% (attr_name, attr_value))" % msg) if eager else ("_skip_logger.debug(%s, attr_name, attr_value)" % msg)
+                n.orelse = ast.parse(call).body
+                done[0] = True
+        if not done[0]:
+            return None
+        tree.body.insert(1, ast.parse("import logging").body[0])
+        tree.body.insert(2, ast.parse("_skip_logger = logging.getLogger(__name__)").body[0])
+        ast.fix_missing_locations(tree)
+        return tree
+    return tr
+
+
+VARIANTS.append(A("S64-skipped-member-logged-lazily", "silent", ALL_PROPS, "jsonclass", _log_skipped_member(False)))
+VARIANTS.append(A("X64-skipped-member-formatted-eagerly", "fire", ["C20"], "jsonclass", _log_skipped_member(True)))
+_PAYLOAD_REQ_OLD = '''        if self.version >= 2:
+            request["jsonrpc"] = str(self.version)
+
+        return request
+'''
+VARIANTS.append(E("S65-memoised-constant-helper", "silent", ALL_PROPS, "jsonrpc", "class Payload(object):",
+                  '''import functools as _functools
+
+
+@_functools.lru_cache(maxsize=None)
+def _protocol_name():
+    return "JSON-RPC"
+
+
+class Payload(object):'''))
+
+
+def _lambda_default_binding(tree):
+    """batch entries dispatched through closures that bind the loop variable as a default argument, called in the same iteration"""
+    f = _find_func(tree, "SimpleJSONRPCDispatcher", "_unmarshaled_dispatch")
+    done = [False]
+
+    class R(ast.NodeTransformer):
+        def visit_Call(self, node):
+            self.generic_visit(node)
+            if ast.unparse(node.func) == "self._marshaled_single_dispatch" and len(node.args) == 2 and ast.unparse(node.args[0]) == "req_entry" and not done[0]:
+                done[0] = True
+                return ast.parse("(lambda entry=req_entry: self._marshaled_single_dispatch(entry, dispatch_method))()").body[0].value
+            return node
+    R().visit(f)
+    ast.fix_missing_locations(tree)
+    return tree if done[0] else None
+
+
+VARIANTS.append(A("S66-closure-over-the-batch-entry-called-on-the-spot", "silent", ALL_SERVER, "SimpleJSONRPCServer", _lambda_default_binding))
+VARIANTS.append(E("S67-serve-error-hook-with-lazy-logging", "silent", ALL_PROPS, "SimpleJSONRPCServer",
+                  '''class PooledJSONRPCServer(socketserver.ThreadingMixIn, SimpleJSONRPCServer):''',
+                  '''class PooledJSONRPCServer(socketserver.ThreadingMixIn, SimpleJSONRPCServer):
+    def handle_error(self, request, client_address):
+        _logger.exception("Error handling the request of %s", client_address)
+'''))
+VARIANTS.append(E("X67-serve-error-hook-that-can-raise", "fire", ["C12"], "SimpleJSONRPCServer",
+                  '''class PooledJSONRPCServer(socketserver.ThreadingMixIn, SimpleJSONRPCServer):''',
+                  '''class PooledJSONRPCServer(socketserver.ThreadingMixIn, SimpleJSONRPCServer):
+    def handle_error(self, request, client_address):
+        _logger.exception("Error handling the request of {0}:{1}".format(*client_address))
+'''))
+VARIANTS.append(E("S68-config-repr-added", "silent", ALL_PROPS, "config", '''    def copy(self):''',
+                  '''    def __repr__(self):
+        return "Config(version={0})".format(self.version)
+
+    def copy(self):'''))
+VARIANTS.append(E("X68-config-len-added-and-truth-tested", "fire", ["C13", "C05"], "config", '''    def copy(self):''',
+                  '''    def __len__(self):
+        return len(self.serialize_handlers)
+
+    def copy(self):'''))
